@@ -25,8 +25,9 @@ type concArg struct {
 	Clients  [][]fsx.Op `json:"clients"`
 	ICacheSz uint64     `json:"icachesz,omitempty"`
 	Probe    *fsx.Probe `json:"probe,omitempty"`
-	NoLin    bool       `json:"nolin,omitempty"`  // C14 race build: skip the oracles that are not needed
-	NShard   uint64     `json:"nshard,omitempty"` // lockmap.NSHARD for this run (0: the scaled default 13)
+	NoLin    bool       `json:"nolin,omitempty"`    // C14 race build: skip the oracles that are not needed
+	NShard   uint64     `json:"nshard,omitempty"`   // lockmap.NSHARD for this run (0: the scaled default 13)
+	ImplFail bool       `json:"implfail,omitempty"` // full disk: NOSPC is an accepted outcome of a request (no effect)
 }
 
 type concIn struct {
@@ -85,6 +86,7 @@ func concHarness(raw json.RawMessage, cfg vrt.Config) (vrt.Result, Outcome) {
 		w := NewWorld(base)
 		w.Disk.Record = false
 		w.Probe = probe
+		w.Model.AllowImplFail = a.ImplFail
 		for _, o := range a.Setup {
 			if _, _, mis := w.Do(o); mis != nil {
 				panic(fmt.Sprintf("set-up operation %s: %v", o, mis))
@@ -129,6 +131,9 @@ func concHarness(raw json.RawMessage, cfg vrt.Config) (vrt.Result, Outcome) {
 					switch o.K {
 					case "SHUTDOWN":
 						w.Srv.ShutdownNfs()
+						continue
+					case "SRVCRASH":
+						w.Srv.Crash() // the shrinker is told to stop after its current transaction, then shutdown
 						continue
 					case "STATS":
 						w.Srv.WriteOpStats(io.Discard)
@@ -329,6 +334,9 @@ func concHarnesses() []concArg {
 		// a write beyond the old end of a file whose truncation is still being finished in the background
 		{Name: "truncate-writebeyond-big", DiskSize: 3000, Probe: bigProbe, Setup: []fsx.Op{{K: "CREATE", H: "root", N: "big"}, {K: "WRITE", H: "root/big", Off: 0, Cnt: 5 * 4096, Pat: 0x30, Stable: 2}, {K: "WRITE", H: "root/big", Off: 600 * 4096, Cnt: 1, Pat: 0x31, Stable: 2}}, Clients: [][]fsx.Op{
 			{{K: "SETATTR", H: "root/big", Size: 0}}, {{K: "WRITE", H: "root/big", Off: 700 * 4096, Cnt: 1, Pat: 0x33, Stable: 2}, {K: "READ", H: "root/big", Off: 0, Cnt: 8192}}}},
+		// a full disk: the WRITE fails at its first allocation (nothing modified, the cached inode stays shared)
+		{Name: "fulldisk-write-setattr", DiskSize: 1539 + 1 + 6, ImplFail: true, Setup: []fsx.Op{{K: "CREATE", H: "root", N: "g"}, {K: "FILL"}}, Clients: [][]fsx.Op{
+			{{K: "WRITE", H: "root/g", Off: 0, Cnt: 4096, Pat: 0x35, Stable: 2}}, {{K: "SETATTR", H: "root/g", NoSize: true, Mtime: 555}, {K: "SETATTR", H: "root/filler", Size: 0}}, {{K: "GETATTR", H: "root/g"}}}},
 		{Name: "eviction", DiskSize: 3000, ICacheSz: 6, Setup: []fsx.Op{{K: "CREATE", H: "root", N: "a"}, {K: "CREATE", H: "root", N: "b"}, {K: "CREATE", H: "root", N: "c"}, {K: "MKDIR", H: "root", N: "d"}, {K: "CREATE", H: "root/d", N: "e"}, {K: "CREATE", H: "root/d", N: "f"}}, Clients: [][]fsx.Op{
 			{{K: "GETATTR", H: "root/a"}, {K: "WRITE", H: "root/b", Off: 0, Cnt: 10, Pat: 0x41, Stable: 2}}, {{K: "LOOKUP", H: "root/d", N: "e"}, {K: "GETATTR", H: "root/b"}}, {{K: "RENAME", H: "root/d", N: "f", H2: "root", N2: "c"}, {K: "LOOKUP", H: "root", N: "c"}}}},
 	}
